@@ -100,3 +100,12 @@ CHECKS["C15"] = dict(
  text="Bounded stand-in only, never counted as proved: takagi (U unitary, s >= 0, U diag(s) U^T = A), williamson (S real symplectic, D positive diagonal paired per mode, S D S^T = M), euler (Bloch-Messiah factors recompose P and A), clements -> inverse_clements / weights round trip / instruction list, Graph mean photon number - on Haar-random and degenerate inputs (identity, permutations, block-diagonal, repeated and zero singular/symplectic values, d = 1).",
  note="exploration level: dimension <= 4 quick / 6 thorough, tolerance 1e-8; nothing proved",
 )
+SETUP_CMD = "/venv/bin/python -m vf.lean && /venv/bin/python -m vf.native"
+ENGINES.append({"name": "cppvc", "path": "vf/cppvc.py + vf/cppframes.py + native/shim.cpp", "serves_properties": ["C04", "C11", "C12"],
+  "kind_free_text": "clang-14 JSON AST of the real C++ sources (template instantiations included) -> Python AST of the integer skeleton -> pyvc verification conditions (bit-precise by obligation: signed overflow, unsigned wrap, narrowing casts, bounds, division); write sets of kernels from the clang AST; replays compile /repo/src with a ctypes shim"})
+CHECKS["C04"] = dict(
+ engine="cppvc + pyvc + lean-lemmas + rtc", category="proof", design_ref="DESIGN.md 5/C04, 2.4",
+ technique="contracts (pre/post, loop invariants, ghost product lemmas) on the integer skeleton extracted mechanically from the clang AST of the real kernels, discharged by z3/cvc5 with Lean-proved binomial lemmas; exhaustive coverage of the exactness pre-condition over the property's multiplicity range; bounded accuracy against defining sums",
+ text="binomialCoeff<int>/<int64_t> = C(n,k) without overflow; for permanent_cpp<double> (row-splitting prefix and kernel, sliced mechanically): all 800+ obligations - every subscript (also inside dropped floating statements) in bounds, no division by zero, no signed overflow, no unsigned wrap, binomial weight equal to prod C(row_i, gray_i) at every addend, job ranges tiling [0, idx_max) for every hardware_concurrency() value - hold under an exactness pre-condition that is shown (exhaustively) to hold on the whole multiplicity range of the property. The Gray counter's contract is assumed (bounded-checked on the real class); floating accuracy of all kernels vs their defining sums is a bounded stand-in. Three native defects found and fixed (int overflow, 0 threads, pfaffian mutating its input).",
+ note="floats dropped from the skeleton; Gray-counter contract assumed; permanent_laplace_cpp and float instantiations not verified separately; Glynn/BBFG formula trusted mathematics; no UB claim for the floating kernels",
+)
